@@ -29,6 +29,7 @@ type c09Scn struct {
 	replyAfter int    // -1: after EOF from the client; otherwise after that many bytes arrived
 	reply      [][]byte
 	upEnd      string // close | half | wait
+	eofData    bool   // the connections deliver EOF together with their last bytes (as crypto/tls does)
 }
 
 func (s c09Scn) String() string {
@@ -39,7 +40,11 @@ func (s c09Scn) String() string {
 	for _, x := range s.reply {
 		rl = append(rl, fmt.Sprint(len(x)))
 	}
-	return fmt.Sprintf("%s pxy=%v client-segments=[%s] client-then=%s reply-after=%d reply-segments=[%s] upstream-then=%s", s.kind, s.proxyProto, strings.Join(sl, ","), s.clientEnd, s.replyAfter, strings.Join(rl, ","), s.upEnd)
+	e := ""
+	if s.eofData {
+		e = " eof-with-last-bytes"
+	}
+	return fmt.Sprintf("%s pxy=%v client-segments=[%s] client-then=%s reply-after=%d reply-segments=[%s] upstream-then=%s%s", s.kind, s.proxyProto, strings.Join(sl, ","), s.clientEnd, s.replyAfter, strings.Join(rl, ","), s.upEnd, e)
 }
 
 var c09Hello = captureHello(&tls.Config{ServerName: "sni.example", InsecureSkipVerify: true, MinVersion: tls.VersionTLS12, MaxVersion: tls.VersionTLS12, CurvePreferences: []tls.CurveID{tls.CurveP256}})
@@ -71,6 +76,8 @@ type c09Result struct {
 	upGot        []byte
 	upSentAll    bool
 	clientSentAll bool
+	upSawEOF     bool // the upstream read the end of the client's stream (before any close of its own)
+	clientSawEOF bool
 	log          []string
 	dials        int
 }
@@ -86,6 +93,8 @@ func c09Body(s c09Scn, res *c09Result) func(x *vsched.X) {
 		clientAddr := &net.TCPAddr{IP: net.IPv4(192, 0, 2, 7), Port: 51000}
 		listenAddr := &net.TCPAddr{IP: net.IPv4(10, 0, 0, 1), Port: 1234}
 		in, client := vnet.Pair("in", listenAddr, "client", clientAddr)
+		in.EOFWithData = s.eofData
+		env.EOFWithData = s.eofData
 		var serve func(net.Conn) error
 		switch s.kind {
 		case "tcp":
@@ -116,6 +125,7 @@ func c09Body(s c09Scn, res *c09Result) func(x *vsched.X) {
 				n, err := client.Read(buf)
 				res.clientGot = append(res.clientGot, buf[:n]...)
 				if err != nil {
+					res.clientSawEOF = err == io.EOF
 					return
 				}
 			}
@@ -130,6 +140,7 @@ func c09Body(s c09Scn, res *c09Result) func(x *vsched.X) {
 				res.upGot = append(res.upGot, buf[:n]...)
 				if err != nil {
 					eof = true
+					res.upSawEOF = err == io.EOF
 				}
 			}
 			for !eof && (s.replyAfter < 0 || len(res.upGot) < s.replyAfter) {
@@ -205,6 +216,13 @@ func c09Oracle(x *vsched.X, s c09Scn, r *c09Result) {
 		}
 	}
 	// completeness is owed to a receiver that has not itself closed its connection
+	// before the stream ended (closing after having read EOF is the normal end)
+	if r.upSawEOF {
+		upClosed = false
+	}
+	if r.clientSawEOF {
+		clientClosed = false
+	}
 	switch {
 	case first == "" && r.clientSentAll && r.upSentAll:
 		if !bytes.Equal(r.toUpstream, full) {
@@ -264,11 +282,20 @@ func c09Scenarios(thorough bool) []c09Scn {
 								if pxy && ra > 0 {
 									n += len("PROXY TCP4 192.0.2.7 10.0.0.1 51000 1234\r\n")
 								}
-								out = append(out, c09Scn{kind, pxy, sp, ce, n, rp, ue})
+								out = append(out, c09Scn{kind, pxy, sp, ce, n, rp, ue, false})
 							}
 						}
 					}
 				}
+			}
+		}
+	}
+	// readers that report EOF together with the last bytes (TLS-terminating listeners)
+	for _, kind := range []string{"tcp", "dynamic"} {
+		for _, sp := range [][][]byte{{payload}, {payload[:6], payload[6:]}} {
+			for _, ce := range []string{"half", "close"} {
+				out = append(out, c09Scn{kind: kind, segs: sp, clientEnd: ce, replyAfter: -1, reply: [][]byte{reply}, upEnd: "close", eofData: true})
+				out = append(out, c09Scn{kind: kind, segs: sp, clientEnd: ce, replyAfter: 0, reply: [][]byte{reply[:5], reply[5:]}, upEnd: "close", eofData: true})
 			}
 		}
 	}
@@ -293,11 +320,11 @@ func c09Scenarios(thorough bool) []c09Scn {
 					if !thorough && si%2 == 1 && ce == "close" {
 						continue
 					}
-					out = append(out, c09Scn{"sni", false, sp, ce, ra, [][]byte{reply}, ue})
+					out = append(out, c09Scn{"sni", false, sp, ce, ra, [][]byte{reply}, ue, false})
 				}
 			}
 		}
-		out = append(out, c09Scn{"sni", true, sp, "half", len(hp) + len("PROXY TCP4 192.0.2.7 10.0.0.1 51000 1234\r\n"), [][]byte{reply}, "close"})
+		out = append(out, c09Scn{"sni", true, sp, "half", len(hp) + len("PROXY TCP4 192.0.2.7 10.0.0.1 51000 1234\r\n"), [][]byte{reply}, "close", false})
 	}
 	return out
 }
@@ -332,7 +359,7 @@ func TestVerifC09Tunnels(t *testing.T) {
 		// quick: every SNI scenario that splits inside / after the hello, and every third of the rest
 		var sub []c09Scn
 		for i, s := range scs {
-			if i%3 == 0 || (s.kind == "sni" && s.clientEnd != "close" && s.upEnd == "close") {
+			if i%3 == 0 || s.eofData || (s.kind == "sni" && s.clientEnd != "close" && s.upEnd == "close") {
 				sub = append(sub, s)
 			}
 		}
